@@ -135,6 +135,103 @@ def transmission_power_weight(path):
     return w
 
 
+def fresnel_mag(n1, n2, c1, transmit=False):
+    """textbook Fresnel amplitude magnitudes (|s|, |p|) for incidence cosine c1 from n1 onto n2"""
+    s1 = math.sqrt(max(0.0, 1 - c1 * c1))
+    s2 = n1 / n2 * s1
+    c2 = complex(math.sqrt(1 - s2 * s2), 0) if s2 <= 1 else complex(0, math.sqrt(s2 * s2 - 1))
+    if transmit:
+        return abs(2 * n1 * c1 / (n1 * c1 + n2 * c2)), abs(2 * n1 * c1 / (n2 * c1 + n1 * c2))
+    return abs((n1 * c1 - n2 * c2) / (n1 * c1 + n2 * c2)), abs((n2 * c1 - n1 * c2) / (n2 * c1 + n1 * c2))
+
+
+def fresnel_magnitude_oracle(path):
+    """|f_s|, |f_p| from the geometry of the path and the textbook formulas (independent of the code's expressions)"""
+    from pyrex.ray_tracing import BasicRayTracePath, UniformRayTracePath
+    if isinstance(path, BasicRayTracePath):
+        top = path.ice.valid_range[1]
+        n_top = float(path.ice.index(top))
+        beta = float(path.n0 * np.sin(path.theta0))
+        if path.direct or not (beta < n_top):      # turns below the surface
+            return 1.0, 1.0
+        return fresnel_mag(n_top, float(path.ice.index_above), math.sqrt(1 - (beta / n_top) ** 2))
+    if isinstance(path, UniformRayTracePath):
+        ms = mp = 1.0
+        pts = [np.asarray(q, float) for q in path._points]
+        for p1, p2 in zip(pts[:-2], pts[1:-1]):
+            d = p2 - p1
+            c1 = abs(d[2]) / float(np.linalg.norm(d))
+            n2 = path.ice.index_above if d[2] > 0 else path.ice.index_below
+            a, b = fresnel_mag(float(path.n0), float(n2), c1)
+            ms, mp = ms * a, mp * b
+        return ms, mp
+    ms, mp = fresnel_magnitude_oracle(path.paths[0])
+    for (kind, n1, n2, rz1, _), q in zip(layered_crossings(path), path.paths[1:]):
+        a, b = fresnel_mag(n1, n2, abs(rz1), transmit=(kind == "Transmits"))
+        qa, qb = fresnel_magnitude_oracle(q)
+        ms, mp = ms * a * qa, mp * b * qb
+    return ms, mp
+
+
+def attenuation_exponent_oracle(path, f):
+    """integral of ds / L(z, f) along the ray by adaptive quadrature of the ray equation
+    (sin(theta) n(z) = const), independent of the code's grids and antiderivatives"""
+    import scipy.integrate
+    from pyrex.ray_tracing import BasicRayTracePath, UniformRayTracePath
+    if isinstance(path, UniformRayTracePath):
+        tot = 0.0
+        pts = [np.asarray(q, float) for q in path._points]
+        for p1, p2 in zip(pts[:-1], pts[1:]):
+            L = float(np.linalg.norm(p2 - p1))
+            if p1[2] == p2[2]:
+                tot += L / float(path.ice.attenuation_length(p1[2], f))
+            else:
+                v, _ = scipy.integrate.quad(lambda z: 1.0 / float(path.ice.attenuation_length(z, f)), min(p1[2], p2[2]), max(p1[2], p2[2]), limit=200)
+                tot += v * L / abs(p2[2] - p1[2])
+        return tot
+    if not isinstance(path, BasicRayTracePath):
+        return sum(attenuation_exponent_oracle(q, f) for q in path.paths)
+    ice = path.ice
+    beta = float(path.n0 * np.sin(path.theta0))
+
+    def leg(za, zb, turning):
+        lo, hi = min(za, zb), max(za, zb)
+        if not turning:
+            g = lambda z: float(ice.index(z)) / math.sqrt(max(float(ice.index(z)) ** 2 - beta ** 2, 1e-300)) / float(ice.attenuation_length(z, f))
+            return scipy.integrate.quad(g, lo, hi, limit=400)[0]
+        # z = hi - u^2 removes the inverse-square-root singularity at the turning depth hi
+        def h(u):
+            z = hi - u * u
+            n = float(ice.index(z))
+            return n / math.sqrt(max(n * n - beta * beta, 1e-300)) / float(ice.attenuation_length(z, f)) * 2 * u
+        return scipy.integrate.quad(h, 0.0, math.sqrt(hi - lo), limit=400)[0]
+    if path.direct:
+        return leg(path.z0, path.z1, False)
+    top = ice.valid_range[1]
+    if beta < float(ice.index(top)):                       # reaches the surface
+        return leg(path.z0, top, False) + leg(path.z1, top, False)
+    zt = math.log((ice.n0 - beta) / ice.k) / ice.a          # n(zt) = beta
+    return leg(path.z0, zt, True) + leg(path.z1, zt, True)
+
+
+def attenuation_allowance(path, f, I_or):
+    """allowed |code - quadrature| of the attenuation exponent: the code integrates on ~1 m grids (measured
+    deviations: <= 0.1 % analytic-grid paths, <= 2 % BasicRayTracePath); BasicRayTracePath additionally stops
+    dz/10 short of a turning point and uses a trapezoid on an inverse-square-root singular integrand there:
+    both errors are bounded by a few arc lengths sqrt(2 R dz), R = n / |dn/dz| the ray's radius of curvature"""
+    from pyrex.ray_tracing import BasicRayTracePath, SpecializedRayTracePath
+    if isinstance(path, BasicRayTracePath) and not isinstance(path, SpecializedRayTracePath):
+        tol = 0.10 * I_or + 0.005
+        ice = path.ice
+        beta = float(path.n0 * np.sin(path.theta0))
+        if not path.direct and not beta < float(ice.index(ice.valid_range[1])):
+            zt = math.log((ice.n0 - beta) / ice.k) / ice.a
+            R = beta / (ice.k * ice.a * math.exp(ice.a * zt))
+            tol += 4 * math.sqrt(2 * R * path.dz) / float(ice.attenuation_length(zt, f))
+        return tol
+    return 0.01 * I_or + 0.002
+
+
 def oracle_filter(times, values, H, force_real):
     n = len(values)
     m = 2 * n
@@ -237,6 +334,15 @@ def fixed_cases():
     rt.max_reflections = 1
     out.append(("uniform", {"tracer": "UniformRayTracer", "from": [0.0, 0.0, -300.0], "to": [0.0, 0.0, -100.0], "n": 1.5, "range": [-1000.0, 0.0],
                             "above": 1.0, "below": 1.9, "max_reflections": 1, "vertical": True}, rt))
+    # surface reflections: total internal (far, shallow) and partial (steep)
+    for a, b in (([0.0, 0.0, -50.0], [150.0, 0.0, -60.0]), ([10.0, -5.0, -300.0], [60.0, 20.0, -200.0])):
+        out.append(("specialized", {"tracer": "SpecializedRayTracer", "from": a, "to": b}, SpecializedRayTracer(a, b)))
+        out.append(("basic", {"tracer": "BasicRayTracer", "from": a, "to": b}, BasicRayTracer(a, b)))
+    for a, b, below in (([0.0, 0.0, -100.0], [800.0, 0.0, -150.0], 1.2), ([0.0, 0.0, -400.0], [90.0, 30.0, -300.0], 1.9)):
+        rt = UniformRayTracer(a, b, UniformIce(1.5, valid_range=(-1000.0, 0.0), index_above=1.0, index_below=below))
+        rt.max_reflections = 2
+        out.append(("uniform", {"tracer": "UniformRayTracer", "from": a, "to": b, "n": 1.5, "range": [-1000.0, 0.0], "above": 1.0, "below": below,
+                                "max_reflections": 2}, rt))
     li = LayeredIce([UniformIce(1.4, valid_range=(-200.0, 0.0)), UniformIce(1.78, valid_range=(-1000.0, -200.0))], index_above=1.0, index_below=None)
     out.append(("layered", {"tracer": "LayeredRayTracer", "from": [0.0, 0.0, -600.0], "to": [200.0, 50.0, -100.0], "bounds": [0.0, -200.0, -1000.0],
                             "indices": [1.4, 1.78], "design_finding": "F12b"}, LayeredRayTracer([0.0, 0.0, -600.0], [200.0, 50.0, -100.0], li)))
@@ -602,6 +708,30 @@ def probes(ctx, cases_in):
                 if pw is not None and mx * pw <= 1 + 1e-9:
                     key, known_t = K_LAYERED_T, True
                 ctx.fail(key, "%s Fresnel coefficient of magnitude %.6g > 1 (s: %r, p: %r)" % (kind, mx, fres[0], fres[1]), {"kind": "fresnel", **base})
+            else:
+                try:
+                    os_, op_ = fresnel_magnitude_oracle(path)
+                    if not (abs(abs(fres[0]) - os_) <= 1e-7 * max(1.0, os_) and abs(abs(fres[1]) - op_) <= 1e-7 * max(1.0, op_)):
+                        ctx.fail("fresnel-magnitude:%s:%d:%s" % (tag, si, json.dumps(desc, sort_keys=True, default=str)[:120]),
+                                 "%s Fresnel magnitudes (%.9g, %.9g) differ from the textbook coefficients for this geometry (%.9g, %.9g)" % (
+                                     kind, abs(fres[0]), abs(fres[1]), os_, op_), {"kind": "fresnel", **base})
+                except Exception as ex:
+                    stats["oracle_errors"] = stats.get("oracle_errors", 0) + 1
+            # attenuation exponent against an independent quadrature of the ray equation (allowance for the code's
+            # 1 m trapezoid / Riemann grids and its cut-off near the turning point: 10 % + 0.005)
+            if stats["paths"] % max(1, ctx.n(2, 1)) == 0:
+                try:
+                    fq = float(rng.choice([1e8, 3e8, 7e8, 2e9]))
+                    with np.errstate(all="ignore"):
+                        I_code = -math.log(float(np.atleast_1d(path.attenuation(np.array([fq])))[0]))
+                        I_or = attenuation_exponent_oracle(path, fq)
+                    stats["attenuation_oracle"] = stats.get("attenuation_oracle", 0) + 1
+                    if not abs(I_code - I_or) <= attenuation_allowance(path, fq, I_or):
+                        ctx.fail("attenuation-value:%s:%d:%s" % (tag, si, json.dumps(desc, sort_keys=True, default=str)[:120]),
+                                 "%s attenuation exponent at %g Hz is %.6g, quadrature of ds/L along the ray gives %.6g" % (kind, fq, I_code, I_or),
+                                 {"kind": "attenuation", **base, "f": fq})
+                except Exception as ex:
+                    stats["oracle_errors"] = stats.get("oracle_errors", 0) + 1
             # polarization vectors
             pol = rand_pol(rng)
             with np.errstate(all="ignore"):
@@ -726,7 +856,7 @@ def run(ctx):
     recorded = json.load(open(PIN_FILE)) if os.path.exists(PIN_FILE) else {}
     changed = [k for k in pins if recorded.get(k) != pins[k]]
     ctx.extra["pins"] = {"current": pins, "changed_since_validation": changed}
-    n_each = ctx.n(4, 40) * (3 if changed else 1)
+    n_each = ctx.n(3, 40) * (3 if changed else 1)
     cases = fixed_cases() + tracer_cases(ctx.rng, n_each)
     import time
     t0 = time.time()
